@@ -86,10 +86,55 @@ class CFG(object):
             if n.k == 'other' and n.op in ('GotoStmt', 'LabelStmt', 'IndirectGotoStmt', 'GCCAsmStmt', 'StmtExpr'):
                 self.unmodelled.append((n.op, n.line))
 
+    @staticmethod
+    def _has_effect(a):
+        for m in walk(a):
+            if m.k == 'call' or (m.k == 'bin' and m.op.endswith('=') and m.op not in ('==', '!=', '<=', '>=')) \
+                    or (m.k == 'un' and m.op in ('++', '--', 'post++', 'post--')):
+                return True
+        return False
+
+    def _effect_cond(self, x):
+        """outermost `c ? a : b` of x with a side effect in an arm (and none in c itself other than calls), else None"""
+        st = [x]
+        while st:
+            n = st.pop()
+            if n is None:
+                continue
+            if n.k == 'cond' and (self._has_effect(n.kids[1]) or self._has_effect(n.kids[2])):
+                return n
+            if n.k == 'bin' and n.op in ('&&', '||'):
+                continue          # conditionally evaluated operand: left to _check_expr
+            st.extend(reversed(n.kids))
+        return None
+
+    def _subst(self, x, tgt, repl):
+        """copy of x in which the node tgt is replaced by repl (only the spine from x to tgt is copied;
+        all other subtrees are shared, so calls and stores in the arms keep their identity)"""
+        import copy
+        if x is tgt:
+            return repl
+        if x is None or not any(n is tgt for n in walk(x)):
+            return x
+        c = copy.copy(x)
+        c.kids = [self._subst(k, tgt, repl) for k in x.kids]
+        if not hasattr(self, 'lowered'):
+            self.lowered = {}
+        self.lowered.setdefault(id(x), []).append(c)
+        return c
+
     def _seq(self, x, cur):
         """expression statement"""
         if cur is None:
             return None
+        c = self._effect_cond(x)
+        if c is not None:
+            # `S[c ? a : b]` with effects in an arm  ==>  `if (c) S[a]; else S[b];`
+            t, f = self._cond(c.kids[0], cur, x)
+            te = self._seq(self._subst(x, c, c.kids[1]), self._join(t))
+            fe = self._seq(self._subst(x, c, c.kids[2]), self._join(f))
+            outs = [(e, None) for e in (te, fe) if e is not None]
+            return self._join(outs) if outs else None
         self._check_expr(x)
         n = self._new('stmt', x)
         self._edge(cur, n.id, None)
@@ -163,6 +208,12 @@ class CFG(object):
                     cur = self._seq(v, cur)
             return cur
         if k == 'ret':
+            c = self._effect_cond(x.kids[0]) if x.kids else None
+            if c is not None:
+                t, f = self._cond(c.kids[0], cur, x)
+                self._stmt(self._subst(x, c, c.kids[1]), self._join(t))
+                self._stmt(self._subst(x, c, c.kids[2]), self._join(f))
+                return None
             n = self._new('ret', x)
             if x.kids:
                 self._check_expr(x.kids[0])
